@@ -15,6 +15,8 @@ import ClarabelProofs.Lemmas.SolverReport
 import ClarabelModel.InfoReset
 import ClarabelProofs.Props.C03Full2
 import ClarabelProofs.Props.C03NS
+import ClarabelProofs.Props.C03Total
+import ClarabelProofs.Props.C03NSTotal
 
 namespace Clarabel.C03
 open Clarabel.Dense Clarabel.Info Finset
